@@ -1,7 +1,9 @@
 (* C18 — table and signal windowing utilities are lossless selections.
-   Model: Model/Window.v (binary64 for the limits start*fs / stop*fs; rows carry six sample
-   indices plus an opaque payload X = all feature columns). *)
-From Coq Require Import List Arith Bool ZArith Floats.PrimFloat.
+   Model: Model/Window.v (binary64: a cycle's time stamps are sample / fs, compared with the limits;
+   rows carry six sample indices plus an opaque payload X = all feature columns).
+   In the real-number statements  finite x  means that the binary64 number x is finite and  FR x  is its
+   real value (FloatFacts: is_finite (Prim2B x), B2R (Prim2B x) through Flocq's Prim2B bridge). *)
+From Coq Require Import List Arith Bool ZArith Reals Floats.PrimFloat.
 Import ListNotations.
 From ByC Require Import Base.Result Base.FloatBase Base.FloatFacts Model.Cycles Model.Epoch Model.Window Proofs.Window.
 
@@ -30,34 +32,119 @@ Theorem C18_limit_df_uniform_shift : forall (X : Type) (rows : list (@wrow X)) f
 Proof. exact @limit_df_uniform_shift. Qed.
 Print Assumptions C18_limit_df_uniform_shift.
 
-(* every cycle entirely inside [start, stop] is kept (either limit optional) ... *)
-Theorem C18_inside_kept : forall (X : Type) fs start stop (r : @wrow X),
+(* which rows pass: the time stamp of the cycle's first sample is not before start and the time stamp of its last
+   sample is not after stop (binary64 comparisons; either limit optional, start defaults to 0) *)
+Theorem C18_keep_row_iff : forall (X : Type) fs start stop (r : @wrow X),
   keep_row fs start stop r = true <->
-  ((match start with Some a => a | None => 0%float end * fs) <=? FloatBase.Z2F (s_last (fst r)))%float = true /\
+  (start_or_0 start <=? FloatBase.Z2F (s_last (fst r)) / fs)%float = true /\
   (match stop with
-   | Some b => (FloatBase.Z2F (s_next (fst r)) <=? (b * fs))%float = true
+   | Some b => (FloatBase.Z2F (s_next (fst r)) / fs <=? b)%float = true
    | None => True
    end).
 Proof. exact @keep_row_iff. Qed.
-Print Assumptions C18_inside_kept.
+Print Assumptions C18_keep_row_iff.
 
-(* ... and no cycle entirely outside it (binary64 order facts; sample indices below 2^53) *)
-Theorem C18_outside_not_kept : forall (X : Type) fs start stop (r : @wrow X),
-  finite (start_or_0 start * fs)%float = true ->
-  (forall b, stop = Some b -> finite (b * fs)%float = true) ->
+(* every cycle entirely inside [start, stop] is kept — in REAL arithmetic on the actual binary64 inputs: finite
+   fs > 0, finite limits, sample indices below 2^53, finite time stamps; if last / fs >= start and (stop given)
+   next / fs <= stop as real numbers, the row is kept.  (Rounding to nearest is monotone and the limits are binary64
+   numbers, so rounding cannot push an inside cycle out.) *)
+Theorem C18_inside_kept_real : forall (X : Type) fs start stop (r : @wrow X),
+  finite fs = true -> (0 < FR fs)%R ->
+  finite (start_or_0 start) = true ->
+  (Z.abs (s_last (fst r)) < 2 ^ 53)%Z ->
+  finite (FloatBase.Z2F (s_last (fst r)) / fs)%float = true ->
+  (FR (start_or_0 start) <= IZR (s_last (fst r)) / FR fs)%R ->
+  (forall b, stop = Some b ->
+     finite b = true /\ (Z.abs (s_next (fst r)) < 2 ^ 53)%Z /\
+     finite (FloatBase.Z2F (s_next (fst r)) / fs)%float = true /\
+     (IZR (s_next (fst r)) / FR fs <= FR b)%R) ->
+  keep_row fs start stop r = true.
+Proof. exact @inside_kept_real. Qed.
+Print Assumptions C18_inside_kept_real.
+
+(* limits taken from the library's own time axis arange(n) / fs: start = time stamp of sample k0, stop = time stamp
+   of sample k1; a cycle spanning samples k0 <= last <= next <= k1 is kept, whatever (k / fs) * fs rounds to
+   (x |-> fl(x / fs) is monotone for fs > 0) *)
+Theorem C18_on_grid_limits : forall (X : Type) fs (k0 k1 : Z) (r : @wrow X),
+  finite fs = true -> (0 < FR fs)%R ->
+  (Z.abs k0 < 2 ^ 53)%Z -> (Z.abs k1 < 2 ^ 53)%Z ->
+  finite (FloatBase.Z2F k0 / fs)%float = true -> finite (FloatBase.Z2F k1 / fs)%float = true ->
+  (k0 <= s_last (fst r))%Z -> (s_last (fst r) <= s_next (fst r))%Z -> (s_next (fst r) <= k1)%Z ->
+  keep_row fs (Some (FloatBase.Z2F k0 / fs)%float) (Some (FloatBase.Z2F k1 / fs)%float) r = true.
+Proof. exact @on_grid_limits. Qed.
+Print Assumptions C18_on_grid_limits.
+
+Theorem C18_on_grid_start_only : forall (X : Type) fs (k0 : Z) (r : @wrow X),
+  finite fs = true -> (0 < FR fs)%R ->
+  (Z.abs k0 < 2 ^ 53)%Z -> (Z.abs (s_last (fst r)) < 2 ^ 53)%Z ->
+  finite (FloatBase.Z2F k0 / fs)%float = true -> finite (FloatBase.Z2F (s_last (fst r)) / fs)%float = true ->
+  (k0 <= s_last (fst r))%Z ->
+  keep_row fs (Some (FloatBase.Z2F k0 / fs)%float) None r = true.
+Proof. exact @on_grid_start. Qed.
+Print Assumptions C18_on_grid_start_only.
+
+(* ... and no cycle entirely outside it.  REAL arithmetic: a cycle (last < next) whose last sample lies before start,
+   next / fs < start, or whose first sample lies after stop, stop < last / fs, is dropped.  No extra hypothesis on the
+   limits is needed: the rounding error of a time stamp k / fs with |k| < 2^53 is below one sample period 1 / fs
+   (Proofs/Window.v time_error), and the tested sample lies a whole period further out than the one in the hypothesis *)
+Theorem C18_outside_not_kept_real : forall (X : Type) fs start stop (r : @wrow X),
+  finite fs = true -> (0 < FR fs)%R ->
   (Z.abs (s_last (fst r)) < 2 ^ 53)%Z -> (Z.abs (s_next (fst r)) < 2 ^ 53)%Z ->
   (s_last (fst r) < s_next (fst r))%Z ->
-  (FloatBase.Z2F (s_next (fst r)) <? (start_or_0 start * fs))%float = true \/
-  (exists b, stop = Some b /\ ((b * fs) <? FloatBase.Z2F (s_last (fst r)))%float = true) ->
+  (finite (start_or_0 start) = true /\
+   finite (FloatBase.Z2F (s_last (fst r)) / fs)%float = true /\
+   (IZR (s_next (fst r)) / FR fs < FR (start_or_0 start))%R) \/
+  (exists b, stop = Some b /\ finite b = true /\
+   finite (FloatBase.Z2F (s_next (fst r)) / fs)%float = true /\
+   (FR b < IZR (s_last (fst r)) / FR fs)%R) ->
+  keep_row fs start stop r = false.
+Proof. exact @outside_not_kept_real. Qed.
+Print Assumptions C18_outside_not_kept_real.
+
+(* the same in binary64 order on the time stamps (what the harness oracle evaluates): last time stamp < start, or
+   stop < first time stamp *)
+Theorem C18_outside_not_kept : forall (X : Type) fs start stop (r : @wrow X),
+  finite fs = true -> (0 < FR fs)%R ->
+  (Z.abs (s_last (fst r)) < 2 ^ 53)%Z -> (Z.abs (s_next (fst r)) < 2 ^ 53)%Z ->
+  (s_last (fst r) <= s_next (fst r))%Z ->
+  finite (FloatBase.Z2F (s_last (fst r)) / fs)%float = true ->
+  finite (FloatBase.Z2F (s_next (fst r)) / fs)%float = true ->
+  (finite (start_or_0 start) = true /\
+   (FloatBase.Z2F (s_next (fst r)) / fs <? start_or_0 start)%float = true) \/
+  (exists b, stop = Some b /\ finite b = true /\ (b <? FloatBase.Z2F (s_last (fst r)) / fs)%float = true) ->
   keep_row fs start stop r = false.
 Proof. exact @outside_not_kept. Qed.
 Print Assumptions C18_outside_not_kept.
 
+(* the pre-repair row test (sample index against start * fs) refuted: at fs = 100, start = the time stamp of sample 7,
+   a cycle spanning samples [7, 10] was dropped; the repaired test keeps it *)
+Theorem C18_legacy_boundary_cycle_refuted : forall (X : Type) (x : X) (c zr zd lz : Z),
+  let t7 := 0x1.1eb851eb851ecp-4%float in
+  let r : @wrow X := (Build_srow c 7 10 zr zd lz, x) in
+  (FloatBase.Z2F 7 / 100 =? t7)%float = true /\
+  keep_row_legacy 100 (Some t7) None r = false /\
+  keep_row 100 (Some t7) None r = true.
+Proof. exact @legacy_boundary_cycle_refuted. Qed.
+Print Assumptions C18_legacy_boundary_cycle_refuted.
+
+(* limit_df succeeds exactly when the sampling rate is positive (+infinity and NaN pass the range check of the
+   code; zero of either sign, negative numbers and -infinity do not), the limits are valid and — when the indices are
+   reset — fs * start is a finite number (int(round(.)) of a NaN / infinity raises) *)
 Theorem C18_limit_df_accepts_exactly_valid_limits : forall (X : Type) (rows : list (@wrow X)) fs start stop reset,
   (exists out, limit_df rows fs start stop reset = Ok out) <->
-  in_range fs 0 infinity = true /\ limits_ok start stop = true.
+  ((0 <? fs)%float = true \/ PrimFloat.is_nan fs = true) /\ limits_ok start stop = true /\
+  (reset = true -> PrimFloat.is_finite (fs * start_or_0 start)%float = true).
 Proof. exact @limit_df_ok_iff. Qed.
 Print Assumptions C18_limit_df_accepts_exactly_valid_limits.
+
+(* a sampling rate of exactly 0 (+0.0 or -0.0) is refused; the pre-repair model accepted it *)
+Theorem C18_limit_df_rejects_fs_zero : forall (X : Type) (rows : list (@wrow X)) start stop,
+  limits_ok start stop = true ->
+  (exists out, limit_df_legacy rows 0%float start stop false = Ok out) /\
+  limit_df rows 0%float start stop false = Err EValue /\
+  limit_df rows (-0)%float start stop false = Err EValue.
+Proof. exact @limit_df_legacy_accepts_fs_zero. Qed.
+Print Assumptions C18_limit_df_rejects_fs_zero.
 
 (* limit_signal: exactly the samples with start <= t < stop, in order *)
 Theorem C18_limit_signal : forall tv start stop out,
